@@ -95,6 +95,15 @@ def gen_plan(profile, seed, tier="quick"):
             knobs["policy"] = "pct"
         knobs["pct_depth"] = rng.randrange(1, 3)
     knobs["storm"] = storm
+    # "marathon" style (rare): one or two clients, hundreds of calls with many
+    # distinct shapes on a few modules - bounded caches, eviction paths and
+    # call counters only show after that many calls
+    marathon = (not storm) and profile in ("C15", "C16") and rng.random() < 0.006
+    knobs["marathon"] = marathon
+    if marathon:
+        n_clients = 1 if rng.random() < 0.6 else 2
+        knobs["n_clients"] = n_clients
+        knobs["policy"] = "boundary"
     # op mix (swarm): each optional kind enabled with probability 0.75
     mix = {}
     for k, wgt in BASE_MIX[profile].items():
@@ -156,10 +165,15 @@ def gen_plan(profile, seed, tier="quick"):
     n_ops_total = rng.randrange(3, 9) * n_clients if profile != "C18" else rng.randrange(3, 11) * n_clients
     if deep:
         n_ops_total = rng.randrange(8, 18) * n_clients
+    if marathon:
+        n_ops_total = rng.randrange(150, 320)
+        mix = {k: v for k, v in mix.items() if k in ("call", "inverse", "backward", "roundtrip")}
+        mix["call"] = mix.get("call", 5) * 3
     regs = [[] for _ in range(n_clients)]     # (reg, family, kind, requires_grad)
     nreg = [0]
     kinds = sorted(mix)
     weights = [mix[k] for k in kinds]
+    knobs["op_mix"] = {k: round(v, 3) for k, v in sorted(mix.items())}
     dtypes_seen = ["float32", "float64"]
     have = set(range(len(slots))) if prologue else set()
 
@@ -173,6 +187,12 @@ def gen_plan(profile, seed, tier="quick"):
         need(c, prog, s)
         fam = slots[s]
         spec = catalog.gen_input_spec(fam, cur_params.get(s, {}), rng, small=knobs["small"])
+        if knobs.get("marathon"):
+            # many distinct shapes rather than the pooled ones
+            lo = 8 if fam in ("scat", "scat2") else 2
+            spec["shape"][-1] = rng.randrange(lo, 41)
+            if len(spec["shape"]) == 4:
+                spec["shape"][-2] = rng.randrange(lo, 41)
         # mostly feed the module the precision it is (statically) in
         sd = slot_dtype.get(s, "float32")
         spec["dtype"] = sd if rng.random() < 0.9 else \
@@ -374,6 +394,8 @@ def gen_plan(profile, seed, tier="quick"):
     # faults (about half of all runs are fault-free)
     faults = []
     budget = 0 if rng.random() < 0.5 else (rng.randrange(1, 4) if not deep else rng.randrange(1, 7))
+    if marathon:
+        budget = 0
     targets = [(c, o) for c in range(n_clients) for o in programs[c] if o["op"] in LMAX]
     for _ in range(budget):
         if not targets:
